@@ -17,6 +17,9 @@ import (
 	"os"
 	"path/filepath"
 	"strings"
+	"time"
+
+	"github.com/AliceO2Group/Control/apricot/local"
 
 	"verifharness/sx"
 )
@@ -88,6 +91,8 @@ type facts struct {
 	// the gRPC hop of a remote apricot (hopFacts)
 	rpcServerSingleCall, rpcServerForwardsError, rpcServerForwardsNumber bool
 	rpcClientSingleCall, rpcClientReturnsError, rpcClientReturnsNumber   bool
+	// the construction of a Service on a Consul backend (ctorFacts: go/ast; evalStartup: evaluated)
+	ctorBuildsOnly, ctorSilentAbsent, ctorSilentPresent, ctorEvaluated bool
 }
 
 func consulFacts(repo string, ft *facts) error {
@@ -859,6 +864,104 @@ func verifOnly(src string) bool {
 	return false
 }
 
+// ---- the construction of a Service ------------------------------------------------------------
+//
+// ctorBuildsOnly (go/ast): on the way from local.NewService to a ConsulSource nothing but
+// constructors is called — no method of the backend, no KV request:
+//
+//	local.NewService           (apricot/local/service.go)   calls ⊆ { cfgbackend.NewSource }
+//	cfgbackend.NewSource       (…/cfgbackend/source.go)     calls ⊆ { strings.HasPrefix, strings.HasSuffix,
+//	                                                          strings.TrimPrefix, NewConsulSource, newYamlSource,
+//	                                                          NewMockSource, errors.New }
+//	cfgbackend.NewConsulSource (…/cfgbackend/consulsource.go) calls ⊆ { api.DefaultConfig, api.NewClient, <x>.KV }
+//
+// and none of the three contains a `go`/`defer` statement or a function literal (nothing is left
+// running that could talk to Consul later on behalf of the construction).
+func ctorFacts(repo string, ft *facts) error {
+	type target struct {
+		file, name string
+		allowed    map[string]bool
+		methodKV   bool // additionally any `<ident>.KV()`
+	}
+	targets := []target{
+		{"/apricot/local/service.go", "NewService", map[string]bool{"cfgbackend.NewSource": true}, false},
+		{"/configuration/cfgbackend/source.go", "NewSource", map[string]bool{"strings.HasPrefix": true, "strings.HasSuffix": true,
+			"strings.TrimPrefix": true, "NewConsulSource": true, "newYamlSource": true, "NewMockSource": true, "errors.New": true}, false},
+		{"/configuration/cfgbackend/consulsource.go", "NewConsulSource", map[string]bool{"api.DefaultConfig": true, "api.NewClient": true}, true},
+	}
+	ok := true
+	for _, t := range targets {
+		f, err := parseFile(repo + t.file)
+		if err != nil {
+			return err
+		}
+		fd := findFunc(f, "", t.name)
+		if fd == nil || fd.Recv != nil {
+			return fmt.Errorf("%s: func %s not found", t.file, t.name)
+		}
+		ast.Inspect(fd.Body, func(x ast.Node) bool {
+			switch n := x.(type) {
+			case *ast.GoStmt, *ast.DeferStmt, *ast.FuncLit:
+				ok = false
+			case *ast.CallExpr:
+				fun := es(n.Fun)
+				if t.allowed[fun] {
+					return true
+				}
+				if sel, isSel := n.Fun.(*ast.SelectorExpr); t.methodKV && isSel && sel.Sel.Name == "KV" && len(n.Args) == 0 {
+					if _, isId := sel.X.(*ast.Ident); isId {
+						return true
+					}
+				}
+				ok = false
+			}
+			return true
+		})
+	}
+	ft.ctorBuildsOnly = ok
+	return nil
+}
+
+// evalStartup CONSTRUCTS a Service with the linked code — local.NewService("consul://<simulator>") —
+// twice: on a KV without the counter key and on one that holds it. No scenario is being replayed,
+// so whatever the constructor asks of Consul is served at once and recorded (consul.go, mode
+// atOnce); the facts say whether it asked anything at all.
+func evalStartup(ft *facts) error {
+	f := newFakeConsul()
+	defer f.shutdown()
+	f.setCloseConns(true)
+	for _, present := range []bool{false, true} {
+		st := newStore(7)
+		if present {
+			st.key(runNumberKey).cur = &kvEntry{raw: []byte("41"), idx: 5, create: 5}
+		}
+		stop := f.serveAtOnce(st)
+		done := make(chan error, 1)
+		go func() {
+			_, err := local.NewService("consul://" + f.addr())
+			done <- err
+		}()
+		select {
+		case err := <-done:
+			if err != nil {
+				stop()
+				return fmt.Errorf("local.NewService: %v", err)
+			}
+		case <-time.After(20 * time.Second):
+			stop()
+			return fmt.Errorf("local.NewService did not return within 20 s although every request was answered at once")
+		}
+		reqs := stop()
+		if present {
+			ft.ctorSilentPresent = len(reqs) == 0
+		} else {
+			ft.ctorSilentAbsent = len(reqs) == 0
+		}
+	}
+	ft.ctorEvaluated = true
+	return nil
+}
+
 // evalWrap runs the LINKED GetNextUInt32 once with the counter at 2^32-1 (extra `w` steps let a
 // variant that sends more requests run to completion; they are no-ops otherwise).
 func evalWrap(ft *facts) error {
@@ -914,6 +1017,12 @@ func genFacts(repo string) (string, error) {
 	if err := evalWrap(&ft); err != nil {
 		problems = append(problems, "evaluation at 2^32-1: "+err.Error())
 	}
+	if err := ctorFacts(repo, &ft); err != nil {
+		problems = append(problems, "constructors: "+err.Error())
+	}
+	if err := evalStartup(&ft); err != nil {
+		problems = append(problems, "evaluation of local.NewService: "+err.Error())
+	}
 	var b strings.Builder
 	for _, p := range problems {
 		fmt.Fprintf(&b, "-- could not establish: %s\n", strings.NewReplacer("\n", " ", "\r", " ").Replace(p))
@@ -941,6 +1050,10 @@ func genFacts(repo string) (string, error) {
 	w("go/ast: the client's last statement returns resp.GetRunNumber() (or resp.RunNumber) of the never re-assigned response", "rpcClientReturnsNumber", ft.rpcClientReturnsNumber)
 	w("EVALUATED on the linked code: with the counter at 4294967295 GetNextUInt32 returns (0, nil) and writes \"0\"", "wrapsAtMax", ft.wrapsAtMax)
 	w("the evaluation at 2^32-1 ran to completion and gave one of the two expected answers ((0, nil) or an error)", "wrapEvaluated", ft.wrapEvaluated)
+	w("go/ast: local.NewService calls nothing but cfgbackend.NewSource, NewSource nothing but string tests and the three backend constructors, NewConsulSource nothing but api.DefaultConfig/api.NewClient/<client>.KV; no go/defer/function literal in any of them — constructing a Service calls no method of the backend", "ctorBuildsOnly", ft.ctorBuildsOnly)
+	w("EVALUATED on the linked code: local.NewService(consul://…) on a KV WITHOUT the counter key sends no request to Consul (every request would have been answered at once and recorded)", "ctorSilentAbsent", ft.ctorSilentAbsent)
+	w("EVALUATED on the linked code: the same on a KV that holds the counter key", "ctorSilentPresent", ft.ctorSilentPresent)
+	w("both constructions returned (within 20 s, every request answered at once)", "ctorEvaluated", ft.ctorEvaluated)
 	b.WriteString("end Gen.C07\n")
 	return b.String(), nil
 }
